@@ -22,6 +22,10 @@ fn find(id: &str) -> Property {
 
 fn exec_case(p: &Property, case: &Value) -> Report {
     let mut rep = Report::default();
+    // every case starts from the same scheduler and entropy state, whatever the process executed before: a step that a
+    // property module forgets to arm is then still a pure function of the case (replay, minimisation, sharding)
+    rayon::sim::set(0x5eed, 1);
+    getrandom::verif_arm(Some((0x5eed, getrandom::Mode::Stream)));
     match guarded(|| (p.exec)(case, &mut rep)) {
         Ok(()) => {}
         Err(e) => {
